@@ -52,6 +52,7 @@ def run(idx: Index, rep: Report, tier: str):
     check_angle_law(idx, rep)
     check_exponential_circuits(idx, rep, tier)
     check_identity_term(idx, rep)
+    check_time_dictionary(idx, rep)
     from .C03 import check_single_reordering
     check_single_reordering(idx, rep)            # fermionic input: the operator handed to each encoder (any spelling of the encoding name)
     check_suzuki(idx, rep)
@@ -393,3 +394,41 @@ def check_trotterize(idx: Index, rep: Report):
         rep.decide(ok, rule, f, c, text=f"exponentiate(qubit_op, time={kws.get('time')}, order, control, return_phase=True)",
                    what="order, control and the phase request are handed to the exponentiation; time is 1 when already folded in, else the step time",
                    reason=f"keywords {kws}")
+
+
+def check_time_dictionary(idx: Index, rep: Report):
+    """The per-term time dictionary and the scalar time are two routes through get_exponentiated_qubit_operator_circuit: with equal times for all terms the
+    dictionary route must emit the very sequence of (word, angle) exponentials the scalar route emits - for every Trotter order -, and with different times it
+    must emit what the scalar route emits at time 1 for the operator whose coefficients are pre-multiplied by their times."""
+    rule = "K8.time-dictionary"
+    f = idx.function(f"{AU}::get_exponentiated_qubit_operator_circuit")
+    wa, wb, wc = ((0, "X"),), ((0, "Z"), (1, "Z")), ((1, "Y"),)
+
+    def emitted(terms, time, order):
+        seq = []
+        fo = cs.make_folder(idx, AU, ctors={"exp_pauliword_to_gates": lambda a, k: (seq.append((a[0], round(float(a[1]), 12))), [])[1], "Circuit": lambda a, k: _OpCirc(*a, **k)})
+        op = Rec("QubitOperator", {"terms": dict(terms)})
+        try:
+            fo.run_function(f.node, {"qubit_op": op, "time": time, "variational": False, "trotter_order": order, "control": None, "return_phase": False, "pauli_order": None})
+        except Undecidable as e:
+            raise AnalysisError(f"get_exponentiated_qubit_operator_circuit not foldable (time={time!r}, order={order}): {e}")
+        return seq
+    terms = {wa: 0.3, wb: -0.7, wc: 0.45}
+    n = 0
+    for order in (1, 2, 4):
+        try:
+            s_scalar = emitted(terms, 0.8, order)
+            s_dict = emitted(terms, {wa: 0.8, wb: 0.8, wc: 0.8}, order)
+            times = {wa: 0.5, wb: -1.25, wc: 2.0}
+            s_mixed = emitted(terms, dict(times), order)
+            s_ref = emitted({w: c * times[w] for w, c in terms.items()}, 1., order)
+        except Raised as e:
+            rep.violation(rule, f, f.node, text=f"Trotter order {order}: time dictionary", what="a per-term time dictionary is accepted for every supported order", reason=f"raises {e.exc_type}")
+            continue
+        n += 2
+        rep.decide(s_dict == s_scalar and len(s_scalar) > 0, rule, f, f.node, text=f"Trotter order {order}: equal per-term times give the scalar-time sequence ({len(s_scalar)} exponentials)",
+                   what="the time-dictionary route applies the same product formula as the scalar route",
+                   reason=f"dictionary route emits {len(s_dict)} exponentials {s_dict[:3]}..., scalar route {len(s_scalar)}: {s_scalar[:3]}...")
+        rep.decide(s_mixed == s_ref and len(s_ref) > 0, rule, f, f.node, text=f"Trotter order {order}: different per-term times = scalar time 1 on the operator with pre-multiplied coefficients",
+                   what="each term evolves for its own time, inside the same product formula", reason=f"dictionary route emits {s_mixed[:3]}..., expected {s_ref[:3]}...")
+    rep.floor("time-dictionary comparisons", n, 6)
